@@ -235,8 +235,8 @@ impl Check for C06 {
         run.rule("balanced layer scenes = clip context + push_layer(opacity, blend) + every well-nested inner sequence up to the depth bound (draws, clear, nested layers, clip changes, transform changes; auto-closed) + pop_layer + context pops; every transition is checked by the step oracle and the final surface against the isolated-surface reference machine; non-trivial = the inner sequence draws something");
         run.assume("at a pop under a partially covering clip path both compositions of opacity and clip coverage are admitted (see C03)");
         let (w, h) = (4, 4);
-        let ctx = contexts(w, h, q);
-        let alpha = inner_alphabet(w, h, q);
+        let ctx = contexts(w, h, false);
+        let alpha = inner_alphabet(w, h, false);
         let some: Vec<BlendMode> = vec![BlendMode::SrcOver, BlendMode::Src, BlendMode::Multiply, BlendMode::Xor];
         let dsts_q = vec![Dst::Distinct];
         let dsts = vec![Dst::Distinct, Dst::White];
@@ -252,10 +252,11 @@ impl Check for C06 {
                 outer28.push((o, b));
             }
         }
-        if q {
-            run_space(run, "depth-2 inner sequences, 4 layer blends", w, h, &outer4, &ctx, &alpha, 2, &dsts_q);
-            run_space(run, "depth-1 inner sequences, 28 layer blends", w, h, &outer28, &ctx, &alpha, 1, &dsts_q);
-        } else {
+        if !q {
+            let ctx4: Vec<(Vec<Op>, Vec<Op>)> = contexts(w, h, true);
+            run_space(run, "depth-4 inner sequences, 4 layer blends, 4 contexts", w, h, &outer4, &ctx4, &inner_alphabet(w, h, true), 4, &dsts_q);
+        }
+        {
             run_space(run, "depth-3 inner sequences, 4 layer blends", w, h, &outer4, &ctx, &alpha, 3, &dsts);
             run_space(run, "depth-2 inner sequences, 28 layer blends", w, h, &outer28, &ctx, &alpha, 2, &dsts);
             let ctx65 = contexts(6, 5, true);
